@@ -116,6 +116,7 @@ def run_shard(pid, tier, seed, shard, nshards, outdir):
     budget = mod.BUDGET[tier]
     per_shard = max(1, budget // nshards)
     time_cap = getattr(mod, "TIME_CAP", {"quick": 90, "thorough": 1200})[tier]
+    time_cap = float(os.environ.get("VERIF_TIME_CAP", time_cap))  # developer override (reproducing a run of an unloaded machine on a loaded one)
     shrink_cap = {"quick": 60, "thorough": 240}[tier]
     st = {
         "evaluations": 0,
